@@ -43,6 +43,9 @@ ASSUMPTIONS = [
     'filters with ordering operators and sort keys only over fields of one scalar kind (numbers, strings, dates or '
     'datetimes) present in every record: Python raises on mixed-type / missing-key ordering - outside the contract',
     'sorting by `id` is not compared with the reference (automatic ids are only determined up to renaming)',
+    'operator criteria on `id`: `in` (automatic and explicit ids mixed) on every driver for update / remove / query; gt ge lt '
+    'le compare ids as strings on the JSON and Redis drivers and are not generated for Mongo (ObjectId and str keys side by '
+    'side are ordered by BSON type, not as strings)',
     'limits are >= 0; NaN / infinities are not JSON-representable and are not generated; dates are >= year 1000 '
     '(strptime %Y needs four digits); record_part of update is non-empty and never contains `id`; projections are '
     'non-empty lists or None; explicit numeric ids are >= 1000 (the Redis counter would otherwise run into them)',
@@ -388,15 +391,25 @@ class Gen:
         rng = self.rng
         f = []
         r = rng.random()
-        if r < 0.15:
+        if r < 0.12:
             return f
-        if r < 0.45:
+        if r < 0.38:
             # by id (fast path), alone or with further criteria
             f.append(['id', ['eq', self.some_id(coll)]])
             if rng.random() < 0.6:
                 return f
-        elif r < 0.55:
-            f.append(['id', ['ops', [['in', [self.some_id(coll) for _ in range(rng.randint(0, 3))]]]]])
+        elif r < 0.56:
+            # operators on id: `in` with automatic and explicit ids mixed; gt/ge/lt/le compare ids as strings (JSON, Redis).
+            # Not on Mongo: its keys are ObjectIds and strings side by side, whose mutual order is BSON's, not the strings'.
+            ops = []
+            for o in rng.sample(['in', 'in', 'in'] if self.mongo else ['in', 'in', 'in', 'gt', 'ge', 'lt', 'le'], rng.choice([1, 1, 2])):
+                if any(o == o2 for o2, _ in ops):
+                    continue
+                if o == 'in':
+                    ops.append([o, [self.some_id(coll) for _ in range(rng.randint(0, 4))]])
+                else:
+                    ops.append([o, self.some_id(coll)])
+            f.append(['id', ['ops', ops]])
             if rng.random() < 0.6:
                 return f
         for _ in range(rng.randint(1, 2)):
@@ -774,18 +787,20 @@ def seq_values(seq):
                 yield from o[k].values()
 
 
-def classify(kind, seq, steps, j):
+def classify(kind, seq, steps, j, reserved=False):
     """key of a violation (what known_findings.json entries match on), computed on the shrunk sequence"""
     op = steps[j]['op'] if j < len(steps) else {}
     key = {'driver': kind.split('-')[0], 'op': op.get('op'), 'observed': steps[j]['out'][0] if j < len(steps) else None}
     vals = list(seq_values(seq))
-    if any(has_reserved(v) for v in vals):
+    if reserved:      # established by a counterfactual run: the same sequence with the key renamed agrees with the reference
         key['reserved_key'] = '__t'
     if any(special_str(v) for v in vals):
         key['string_needs_escaping'] = True
     f = op.get('filt') or []
     if any(k == 'id' and c[0] == 'eq' for k, c in f) and len(f) > 1:
         key['id_plus_criteria'] = True
+    if any(k == 'id' and c[0] == 'ops' for k, c in f):
+        key['id_operators'] = sorted(o2 for k, c in f if k == 'id' and c[0] == 'ops' for o2, _ in c[1])
     if any(o['op'] in ('insert', 'replace') and not o['record'] for o in seq):
         key['empty_record'] = True
     if j < len(steps) and steps[j]['out'][0] == 'recs' and 'mutated-by-caller' in json.dumps([{k: enc(v) for k, v in r.items()} for r in steps[j]['out'][1]], default=str):
@@ -793,6 +808,41 @@ def classify(kind, seq, steps, j):
         if kind.startswith('json') and JSON_INPUT_MUTATION:
             key['aliasing'] = 'input-or-output'
     return key
+
+
+def rename_reserved(v):
+    if isinstance(v, dict):
+        return {('__t_' if k == '__t' else k): rename_reserved(x) for k, x in v.items()}
+    if isinstance(v, list):
+        return [rename_reserved(x) for x in v]
+    return v
+
+
+def without_reserved(seq):
+    out = []
+    for o in seq:
+        o = dict(o)
+        for k in ('record', 'part'):
+            if k in o:
+                o[k] = rename_reserved(o[k])
+        out.append(o)
+    return out
+
+
+def attributable_to_reserved(ctx, items, tag):
+    """items: list of (kind, seq).  -> list of bool: the sequence stores an object with the key `__t` AND the same sequence
+    with that key renamed agrees with the reference store on this driver (so the reserved key is what makes it fail)"""
+    idx = [i for i, (kind, seq) in enumerate(items) if any(has_reserved(v) for v in seq_values(seq))]
+    out = [False] * len(items)
+    if not idx:
+        return out
+    runs = [(items[i][0], asyncio.run(run_seq(items[i][0], without_reserved(items[i][1]), ctx.workdir, '%s_%d' % (tag, i)))) for i in idx]
+    bs, _, errs = eval_cases(ctx, 'cf_%s' % tag, runs)
+    if errs:
+        return out
+    for n, i in enumerate(idx):
+        out[i] = n not in bs
+    return out
 
 
 def shrink(ctx, kind, seq, j_uid, tag):
@@ -1037,38 +1087,52 @@ def run_batch(ctx, res, seqs, kinds, label, shrink_budget=9):
     bad_spec, bad_model, errors = eval_cases(ctx, 'c06%s' % label, cases)
     res['extra']['coq_wall_s'] = round(res['extra'].get('coq_wall_s', 0) + time.time() - t0, 2)
     res['tie_failures'] += errors
+    order = sorted(bad_spec)
+    attrib = dict(zip(order, attributable_to_reserved(ctx, [(meta[ci][1], meta[ci][2]) for ci in order], label)))
     groups = {}
-    for ci, j in sorted(bad_spec.items()):
+    for ci in order:
         name, kind, seq = meta[ci]
-        steps = cases[ci][1]
-        pre = json.dumps(classify(kind, seq, steps, j), sort_keys=True)
+        pre = json.dumps(classify(kind, seq, cases[ci][1], bad_spec[ci], attrib[ci]), sort_keys=True)
         groups.setdefault(pre, []).append(ci)
     res['extra']['violating_cases'] = res['extra'].get('violating_cases', 0) + len(bad_spec)
-    seen = ctx.__dict__.setdefault('c06_groups', {})       # shrink at most 1 case per group and 4 per check
+    # EVERY group is reported.  One case per group is shrunk while the budget lasts (2 for the reserved-key class, 4 for
+    # the others, per check); beyond it the case is reported as found, cut at the failing step.
+    seen = ctx.__dict__.setdefault('c06_groups', {})
+    budget = ctx.__dict__.setdefault('c06_budget', {True: 2, False: 4})
     reported = ctx.__dict__.setdefault('c06_reported', set())
-    for pre, cis in sorted(groups.items(), key=lambda kv: kv[1][0]):
-        for ci in cis:
-            if seen.get(pre, 0) >= 1 or sum(seen.values()) >= 4:
-                break
-            seen[pre] = seen.get(pre, 0) + 1
-            name, kind, seq = meta[ci]
+    for pre, cis in sorted(groups.items(), key=lambda kv: ('reserved_key' in kv[0], kv[1][0])):
+        if pre in seen:
+            continue
+        seen[pre] = 1
+        ci = cis[0]
+        name, kind, seq = meta[ci]
+        is_res = attrib[ci]
+        s2 = steps2 = j2 = None
+        if budget[is_res] > 0:
+            budget[is_res] -= 1
             s2, steps2, j2 = shrink(ctx, kind, seq, None, 's%d' % ci)
-            if j2 is None:      # not reproducible on re-run: report the original
-                s2, steps2, j2 = seq, cases[ci][1], bad_spec[ci]
-            key = classify(kind, s2, steps2, j2)
-            sig = json.dumps(key, sort_keys=True)
-            if sig in reported:
-                continue
-            reported.add(sig)
-            st = steps2[j2]
-            res['violations'].append({
-                'key': key,
-                'what': '%s driver: step %d (%s on %r) returns %s, which contradicts the reference store%s' % (
-                    kind, j2, st['op']['op'], st['op']['coll'], st['out'][0] if st['out'][0] != 'err' else 'an exception (%s)' % st['note'],
-                    '' if name is None else ' [corpus %s]' % name),
-                'case': {'driver': kind, 'sequence': seq_to_json(s2)},
-                'observed': [describe_step(s) for s in steps2],
-            })
+        if j2 is None:      # no budget, or not reproducible on re-run: report the case as found
+            steps2, j2 = cases[ci][1], bad_spec[ci]
+            uid = steps2[j2]['op']['uid']
+            s2 = seq[:[i for i, o in enumerate(seq) if o['uid'] == uid][0] + 1]
+            steps2 = steps2[:j2 + 1]
+            res_flag = is_res
+        else:
+            res_flag = attributable_to_reserved(ctx, [(kind, s2)], 'k%d' % ci)[0]
+        key = classify(kind, s2, steps2, j2, res_flag)
+        sig = json.dumps(key, sort_keys=True)
+        if sig in reported:
+            continue
+        reported.add(sig)
+        st = steps2[j2]
+        res['violations'].append({
+            'key': key,
+            'what': '%s driver: step %d (%s on %r) returns %s, which contradicts the reference store%s' % (
+                kind, j2, st['op']['op'], st['op']['coll'], st['out'][0] if st['out'][0] != 'err' else 'an exception (%s)' % st['note'],
+                '' if name is None else ' [corpus %s]' % name),
+            'case': {'driver': kind, 'sequence': seq_to_json(s2)},
+            'observed': [describe_step(s) for s in steps2],
+        })
     for ci, j in sorted(bad_model.items()):
         if ci in bad_spec:
             continue     # already reported as a contradiction of the specification
